@@ -283,6 +283,7 @@ type State struct {
 	held     map[string]bool // locks currently held (by printed receiver expr)
 	ghost    map[string]Val  // ghost locals / let-bindings
 	trace    []string        // branch decisions, for reporting
+	decPC    []Term          // progress assumptions, visible to termination obligations only
 	old      *State          // snapshot that old() refers to (entry, or first lock acquisition)
 }
 
@@ -307,6 +308,7 @@ func (s *State) fork() *State {
 		n.ghost[k] = v
 	}
 	n.trace = s.trace[:len(s.trace):len(s.trace)]
+	n.decPC = s.decPC[:len(s.decPC):len(s.decPC)]
 	return n
 }
 
